@@ -1,6 +1,54 @@
 package report
 
+import "sync"
+
 type Handler interface {
 	NotifySessReport(SessReport)
 	PopBufPkt(uint64, uint16) ([]byte, bool)
+}
+
+// AsyncHandler hands reports to the wrapped Handler from a goroutine of its
+// own, in the order they were notified, so that NotifySessReport never blocks
+// the caller. The report producers (the netlink multiplexer goroutine running
+// the buffering listener, the periodic report server) must not wait for the
+// PFCP event loop to take a report: the loop may at that moment be waiting
+// for them - for a netlink reply only the multiplexer can deliver, or for
+// room in the periodic server's event queue.
+type AsyncHandler struct {
+	Handler
+	mu      sync.Mutex
+	pending []SessReport
+	running bool
+}
+
+func NewAsyncHandler(h Handler) *AsyncHandler {
+	return &AsyncHandler{Handler: h}
+}
+
+func (a *AsyncHandler) NotifySessReport(sr SessReport) {
+	a.mu.Lock()
+	a.pending = append(a.pending, sr)
+	start := !a.running
+	a.running = true
+	a.mu.Unlock()
+	if start {
+		go a.drain()
+	}
+}
+
+func (a *AsyncHandler) drain() {
+	for {
+		a.mu.Lock()
+		if len(a.pending) == 0 {
+			a.pending = nil
+			a.running = false
+			a.mu.Unlock()
+			return
+		}
+		sr := a.pending[0]
+		a.pending[0] = SessReport{}
+		a.pending = a.pending[1:]
+		a.mu.Unlock()
+		a.Handler.NotifySessReport(sr)
+	}
 }
